@@ -42,6 +42,11 @@ below is decided on K1 (D-Bus engine, 3 counters) and on K2 (both engines, 4 cou
   P-ESC      a caller of an opener either moves the handle on (into a wrapper, a visitor, the return
              value) or closes on every non-error return
   P-PAIR     for every opener, some method of the handle type it returns closes the same counter
+  P-ROOT     (R-WHO) the zero-depth constructors are called only from the confirmed top-level entry points
+             (Data::deserialize_for_signature / deserialize_with_seed, ser::serialized_size /
+             to_writer_for_signature), and on the over-approximating workspace call graph (generic and dyn
+             calls fan out to every impl) no impl of a serde trait can reach one of them: the depth is
+             never reset in the middle of an encode/decode
 
 Dropped from the design: nothing; the "asymmetry to confirm" (GVariant ArrayDeserializer::new increments
 before parse_padding) is irrelevant to these clauses: the error aborts the whole decode.
@@ -859,6 +864,48 @@ def check_engines(ctx, f, tag, methods, features):
                     ctx.ob("P-ESC", k, ok, "caller keeps the handle and closes on every non-error return" if ok else
                            "caller drops the handle without undoing the increment", c.where)
     ctx.floor("P-ESC", tag + "call sites of openers", n_esc, 10 if has_gv else 5)
+
+    # ---- P-ROOT
+    from .. import callgraph
+    zero_ctors = {f.bodies.get(e.body.root, e.body).id for e in evs if e.kind == "default" and e.sink == "child"}
+    ctx.floor("P-ROOT", tag + "zero-depth constructors", len(zero_ctors), 4 if has_gv else 2)
+    entry_ok = {"zvariant::serialized::data::Data::deserialize_for_signature", "zvariant::serialized::data::Data::deserialize_with_seed",
+                "zvariant::ser::serialized_size", "zvariant::ser::to_writer_for_signature"}
+    n_callers = 0
+    for b in f.all_bodies():
+        for c in mir.calls(b):
+            if c.callee in zero_ctors:
+                n_callers += 1
+                k = fkey(f, b)
+                ctx.ob("P-ROOT", tag + "caller:" + k, k in entry_ok,
+                       "top-level entry point" if k in entry_ok else "unexpected caller of a zero-depth (De)Serializer constructor", c.where)
+    ctx.floor("P-ROOT", tag + "callers of zero-depth constructors", n_callers, 4)
+    cg = callgraph.get(f)
+    rev = {}
+    for a, outs in cg.edges.items():
+        for o in outs:
+            rev.setdefault(o, set()).add(a)
+    can_reach = set()
+    work = list(zero_ctors)
+    while work:
+        x = work.pop()
+        if x in can_reach:
+            continue
+        can_reach.add(x)
+        work.extend(rev.get(x, ()))
+    n_serde = 0
+    for b in f.all_bodies():
+        t = b.d.get("impl_trait") or ""
+        if b.id == b.root and (t.startswith("serde_core::") or t.startswith("serde::")):
+            n_serde += 1
+            if b.id in can_reach:
+                tgt = sorted(z for z in zero_ctors if cg.path(b.id, z))[:1]
+                ctx.ob("P-ROOT", tag + "reenters:" + fkey(f, b), False,
+                       "serde impl can reach a zero-depth constructor: %s" % (cg.path(b.id, tgt[0]) if tgt else "?"), b.where)
+    ctx.ob("P-ROOT", tag + "no-reentry", not any(b.id in can_reach for b in f.all_bodies()
+                                                  if b.id == b.root and ((b.d.get("impl_trait") or "").startswith("serde_core::"))),
+           "none of the %d workspace impls of serde traits can reach a zero-depth constructor" % n_serde, "-")
+    ctx.floor("P-ROOT", tag + "serde trait impl methods examined", n_serde, 100)
 
 
 def check_config(ctx, cfg):
